@@ -13,7 +13,7 @@ ROOTS = (T + "timezone::TimeZone::from_tz_data", T + "timezone::TimeZone::from_p
 def run(chk, tier):
     P = Prog("default")
     chk.configs.add("default")
-    for r in (r_absint, r_block_order, r_header_order, r_rule_boxes, r_validate, r_validate_cover, r_record_layout, r_offset_sign, r_capacity, r_header_consts):
+    for r in (r_absint, r_block_order, r_header_order, r_rule_boxes, r_validate, r_validate_cover, r_record_layout, r_offset_sign, r_data_indices, r_capacity, r_header_consts):
         chk.guarded(r, P, tier)
     chk.assume("that every conforming file is accepted and decoded to exactly the written transitions/types/rule is not decided (value-level)")
     return {
@@ -249,6 +249,84 @@ def r_offset_sign(chk, P, tier):
     for i, name in ((1, "hour"), (2, "minute"), (3, "second")):
         occ = _leaves_under_mul(val, comp(i), comp(0))
         chk.expect(bool(occ) and all(occ), name, "the %s component of a POSIX TZ offset is %s in parse_offset's result" % (name, "not multiplied by the sign" if occ else "not used"), loc=P.loc(fn))
+
+
+def r_data_indices(chk, P, tier):
+    """an index read from the file is compared with the header count of the table it indexes before it is used: in parse() every slice of state.names
+    whose bound comes from a record byte is dominated by a comparison of that value with header.char_count that leads to Err"""
+    from rules import _copies, _root, _def_of, _places_of
+    chk.rule("DOM.data_indices", "parse(): the abbreviation index read from a local-time-type record is compared with header.char_count (=> Err) on every way to the slicing of state.names", floor=1)
+    fn = T + "parser::parse"
+    mir = P.fn(fn)["mir"]
+    cfg = P.cfg(fn)
+    copies = _copies(mir)
+    st_fields = [f["name"] for f in P.adts[T + "parser::State"]["variants"][0]["fields"]]
+    hd_fields = [f["name"] for f in P.adts[T + "parser::Header"]["variants"][0]["fields"]]
+    f_names, f_header, f_cc = st_fields.index("names"), st_fields.index("header"), hd_fields.index("char_count")
+
+    def fields_of(pl):
+        return tuple(e[1] for e in pl["p"] if isinstance(e, list) and e[0] == "f")
+
+    def origin(l, depth=0):
+        """field path of the place a temporary was loaded from"""
+        if depth > 6:
+            return None
+        d = _def_of(mir, _root(copies, l))
+        if not d or d[1].get("k") != "assign":
+            return None
+        rv = d[1]["rv"]
+        pl = rv.get("pl") if rv["k"] == "ref" else (rv["x"].get("pl") if rv["k"] in ("use", "cast") and rv["x"]["k"] in ("copy", "move") else None)
+        if pl is None:
+            return None
+        if fields_of(pl):
+            return fields_of(pl)
+        return origin(pl["l"], depth + 1)
+    sites = 0
+    for bi, b in enumerate(mir["blocks"]):
+        t = b["t"]
+        if b.get("cleanup") or t["k"] != "call" or not (t["callee"].get("resolved") or "").endswith("Index<I> for [T]>::index"):
+            continue
+        a0 = t["args"][0]
+        if a0["k"] not in ("copy", "move") or origin(a0["pl"]["l"]) != (f_names,):
+            continue
+        # operands of the range aggregate
+        rd = _def_of(mir, _root(copies, t["args"][1]["pl"]["l"]))
+        ops = []
+        if rd and rd[1].get("k") == "assign" and rd[1]["rv"]["k"] == "agg":
+            _places_of(rd[1]["rv"]["fields"], ops)
+        roots = set()
+        for o in ops:
+            r = _root(copies, o["l"])
+            roots.add(r)
+            d = _def_of(mir, r)
+            # start + len: take the summands
+            if d and d[1].get("k") == "assign" and d[1]["rv"]["k"] == "use" and d[1]["rv"]["x"]["k"] in ("copy", "move") and d[1]["rv"]["x"]["pl"]["p"]:
+                dd = _def_of(mir, d[1]["rv"]["x"]["pl"]["l"])
+                if dd and dd[1].get("k") == "assign" and dd[1]["rv"]["k"] == "bin":
+                    for side in ("l", "r"):
+                        if dd[1]["rv"][side]["k"] in ("copy", "move"):
+                            roots.add(_root(copies, dd[1]["rv"][side]["pl"]["l"]))
+        sites += 1
+        guarded = False
+        for d_ in range(len(mir["blocks"])):
+            if d_ not in cfg.reach or d_ == bi or not cfg.dominates(d_, bi):
+                continue
+            td = mir["blocks"][d_]["t"]
+            if td["k"] != "switch" or td["discr"]["k"] not in ("copy", "move"):
+                continue
+            df = _def_of(mir, td["discr"]["pl"]["l"])
+            if not df or df[1].get("k") != "assign" or df[1]["rv"]["k"] != "bin" or df[1]["rv"]["op"] not in ("Ge", "Lt", "Gt", "Le"):
+                continue
+            l_, r_ = df[1]["rv"]["l"], df[1]["rv"]["r"]
+            if l_["k"] not in ("copy", "move") or r_["k"] not in ("copy", "move"):
+                continue
+            a, c = _root(copies, l_["pl"]["l"]), _root(copies, r_["pl"]["l"])
+            oa, oc = origin(l_["pl"]["l"]), origin(r_["pl"]["l"])
+            if (a in roots and oc == (f_header, f_cc)) or (c in roots and oa == (f_header, f_cc)):
+                guarded = True
+        chk.expect(guarded, "names slice #%d" % sites, "parse() slices state.names with a value read from the file that was not compared with header.char_count first (line %s)" % t.get("ln"), loc=P.loc(fn, t.get("ln")))
+    if sites < 2:
+        raise AnchorLost("parse(): %d slicings of state.names found" % sites)
 
 
 def r_validate_cover(chk, P, tier):
